@@ -114,6 +114,13 @@ def candidates(tree):
                         if tnames and all(names_used.count(t) == inside.count(t) for t in tnames) and st.targets[0].id not in inside \
                                 and not any(isinstance(x, (ast.Lambda, ast.GeneratorExp, ast.ListComp)) for x in ast.walk(comp.elt)):
                             out.append(("comp-to-loop", (L, i, comp), None))
+        # rename a nested function (definition and every use inside the enclosing function)
+        for d in [x for x in ast.walk(fn) if isinstance(x, ast.FunctionDef) and x is not fn]:
+            uses_elsewhere = [x for x in ast.walk(tree) if isinstance(x, ast.Name) and x.id == d.name]
+            inside = [x for x in ast.walk(fn) if isinstance(x, ast.Name) and x.id == d.name]
+            if len(uses_elsewhere) == len(inside) and not any(isinstance(x, (ast.Global, ast.Nonlocal)) for x in ast.walk(fn)) \
+                    and sum(1 for x in ast.walk(fn) if isinstance(x, ast.FunctionDef) and x.name == d.name) == 1 and not any(isinstance(x, ast.arg) and x.arg == d.name for x in ast.walk(fn)):
+                out.append(("rename-nested-def", (fn, d), None))
         for n in ast.walk(fn):
             if isinstance(n, ast.Call) and isinstance(n.func, ast.Name) and n.func.id in CLASS_FIELDS and n.args and not n.keywords \
                     and not any(isinstance(a_, ast.Starred) for a_ in n.args) and len(n.args) <= len(CLASS_FIELDS[n.func.id]):
@@ -154,6 +161,14 @@ def apply(kind, node, extra, rng):
         node.keywords = [ast.keyword(arg=flds[i], value=a_) for i, a_ in enumerate(node.args) if i >= keep]
         node.args = node.args[:keep]
         return f"constructor {node.func.id}: arguments from position {keep} on passed by keyword (line {node.lineno})"
+    if kind == "rename-nested-def":
+        fn, d = node
+        old, new = d.name, d.name.strip("_") + "_fn"
+        for x in ast.walk(fn):
+            if isinstance(x, ast.Name) and x.id == old:
+                x.id = new
+        d.name = new
+        return f"rename nested function {old} -> {new} in {fn.name}"
     if kind == "inline-temp":
         L, i = node
         st = L[i]
